@@ -4,7 +4,7 @@ from ref import pools, zkp, rangeproof as rp
 
 ID = "C10"
 LEVEL = "exploration"
-CONFIGS = {"quick": ["san"], "thorough": ["san", "san_nv", "mx_i64"]}
+CONFIGS = {"quick": ["san", "mx_i64"], "thorough": ["san", "san_nv", "mx_i64"]}
 RULE = ("proofs built by an adversarial reference prover for arbitrary headers (exp 0..31, mantissa 1..65, min_value, reserved bit, wrapping ranges, "
         "spare sign bits, no-range proofs) with every forged ring scalar chosen small, and library-made proofs; mutations: each forged scalar re-encoded "
         "as s+n, scalars := 0 / n, digit x := off-curve / >= p / sign flipped, e0 altered, single-bit flips (all bits of the smallest proofs, sampled "
@@ -133,6 +133,20 @@ def wl_refprover(ctx, config):
             if cls == "reserved_bit":
                 t = bytearray(pr["proof"]); t[0] &= 0x7F; vcase(ctx, config, C, Co, H, Ho, bytes(t), extra, "refprover:reserved_bit_cleared")
 
+def wl_smallx(ctx, config):
+    """digit commitment with x0 < 2^32+977 under a generator chosen by the prover: canonical encoding must verify, x0 + p must not"""
+    rng = ctx.rng
+    for it in range(ctx.n(24, 400)):
+        extra = pools.rbytes(rng, rng.choice((0, 0, 7, 32)))
+        for noncanon in (False, True):
+            d = rp.make_proof_smallx(rng, extra, noncanon)
+            if d is None: continue
+            Ho = gen_obj(ctx, config, d["H"]); Co = commit_obj(ctx, config, d["C"])
+            if Ho is None or Co is None: continue
+            exp_model = vcase(ctx, config, d["C"], Co, d["H"], Ho, d["proof"], extra, "smallx:" + ("x0_plus_p" if noncanon else "canonical"), also_info=True)
+            if not noncanon: ctx.check(exp_model is not None, "model:smallx_canonical_rejected_by_model", "x0=%d" % d["x0"], config)
+            else: ctx.check(exp_model is None, "model:smallx_noncanonical_accepted_by_model", "x0=%d" % d["x0"], config)
+
 def wl_libproofs(ctx, config):
     rng = ctx.rng
     for it in range(ctx.n(70, 700)):
@@ -170,7 +184,9 @@ def wl_garbage(ctx, config):
         vcase(ctx, config, C, Co, H, Ho, bytes(pf), b'', "garbage", nontrivial=False, also_info=True)
 
 def run(ctx):
-    for config in ctx.configs:
+    for i, config in enumerate(ctx.configs):
+        wl_smallx(ctx, config)
+        if ctx.quick and i > 0: continue          # quick: the 32-bit-limb build only gets the coordinate-range workload
         wl_refprover(ctx, config)
         wl_libproofs(ctx, config)
         wl_garbage(ctx, config)
